@@ -58,20 +58,32 @@ def run(chk, tier, seed):
                                                      "custom %s" % sorted((k, v) for k, v in c["custom"].items() if k != v) if c["custom"] else "default")
         detail = {"async": c["async"], "custom_mapping": c["custom"], "documents": c["docs"],
                   "routes": {"A": c["routes"]["A"], "B1": c["routes"]["B1"], "B2": c["routes"]["B2"]}}
-        bad_rc = [r for r in [c["routes"]["A"], c["routes"]["B1"]] + [x[1] for x in c["routes"]["B2"]] if r["rc"] != 0]
-        if bad_rc:
-            chk.violation(key, "cli-failed", dict(detail, failed=bad_rc[0]))
+        ra, rb1 = c["routes"]["A"], c["routes"]["B1"]
+        b2fail = [(wf, r) for wf, r in c["routes"]["B2"] if r["rc"] != 0]
+        if rb1["rc"] != 0:
+            chk.violation(key, "cli-failed:otel2pv", dict(detail, failed=rb1))
             continue
+        # the learner itself may refuse a data set (e.g. NotImplementedError for a break under a fork): that is not a
+        # difference between the routes as long as both routes refuse it with the same exception
+        cls = lambda r: r["exception"].split(":")[0].strip()      # noqa: E731
+        if ra["rc"] != 0 and not any(cls(r) == cls(ra) for _wf, r in b2fail):
+            chk.violation(key, "cli-failed:otel2puml-only", dict(detail, failed=ra, pv2puml_failures=b2fail))
+            continue
+        if ra["rc"] == 0 and b2fail:
+            chk.violation(key, "cli-failed:pv2puml-only", dict(detail, failed=b2fail[0][1], workflow=b2fail[0][0]))
+            continue
+        refused = {wf.replace(" ", "_") for wf, _r in b2fail}
         if not c["stream"].get("ok") or not c["load"].get("ok"):
             chk.violation(key, "stage-failed", dict(detail, stream=c["stream"], load=c["load"]))
             continue
         mp = c["custom"] or pipeline.DEFAULT_MAP
         runs.append((mp, c["stream"]["jobs"], c["files"], c["load"]["jobs"]))
         rowner.append((key, detail))
-        if set(c["pumlA"]) != set(c["pumlB"]):
+        both = (set(c["pumlA"]) & set(c["pumlB"])) - refused
+        if ra["rc"] == 0 and set(c["pumlA"]) != set(c["pumlB"]):
             chk.violation(key, "workflows", dict(detail, route_a=sorted(c["pumlA"]), route_b=sorted(c["pumlB"])))
             continue
-        for wf in sorted(c["pumlA"]):
+        for wf in sorted(both):
             try:
                 a, b = puml.parse(c["pumlA"][wf]), puml.parse(c["pumlB"][wf])
             except puml.PumlError as e:
